@@ -458,6 +458,72 @@ def rule_casts(chk, prog, tier):
     r.exhaustive = True
 
 
+# ------------------------------------------------------------------ C10.j simple assignment constraints
+
+def rule_assign_constraints(chk, prog, tier):
+    r = chk.rule('C10.j', 'simple assignment and compound assignment are subject to the constraints of 6.5.16.1: arithmetic from arithmetic, _Bool also from pointers, pointer from a null pointer constant or a pointer to a compatible type or void without dropping qualifiers, structure from the same structure type; everything else is diagnosed',
+                 floor=300, oracle='C11 6.5.16.1p1')
+    from props import c05
+    fn = prog.require_func('assignexpr', 'expr.c')
+    O = c05.oracle(c05.SIGNEDCHAR['x86_64-sysv'])
+    def runner(it):
+        it.MAX_STEPS = 10 ** 9
+        w = World(prog, it=it, target='x86_64-sysv')
+        u = c05.universe(w)
+        ops = c05.operands(w, u)
+        QC = ev(prog, 'QUALCONST')
+        cint = w.mkptr(u['int'], 0); cint.obj.f[('qual',)] = QC
+        ops.append(('ptr_cint', w.temp(cint, 'pci'), {'k': 'ptr', 'pointee': 'cint', 'type': cint}))
+        sv2 = w.mkstruct(size=8, align=4)
+        ops.append(('struct2', w.temp(sv2, 's2'), {'k': 'struct2'}))
+        cur = {}; seq = {'i': 0}
+        tokobj = it.gobj('tok')
+        def settok(k):
+            tokobj.f[('kind',)] = ev(prog, k); tokobj.f[('lit',)] = None
+            tokobj.f[('loc', 'file')] = None; tokobj.f[('loc', 'line')] = 1; tokobj.f[('loc', 'col')] = 1
+        def condexpr(i2, a, e):
+            seq['i'] += 1
+            if seq['i'] == 1:
+                settok('TASSIGN'); return cur['l']
+            settok('TSEMICOLON'); return cur['r']
+        it.models.update({'condexpr': condexpr, 'next': lambda i2, a, e: None,
+                          'fatal': lambda i2, a, e: (_ for _ in ()).throw(Terminal('fatal', a)), 'error': lambda i2, a, e: (_ for _ in ()).throw(Terminal('error', a))})
+        out = {}
+        for ln, le, ld in ops:
+            if ld.get('w') is not None or ld.get('null'): continue
+            # the left operand must be a modifiable lvalue: give the operand expression the lvalue flag
+            le.obj.f[('lvalue',)] = 1
+            for rn, re_, rd in ops:
+                cur.update({'l': le, 'r': re_}); seq['i'] = 0
+                try:
+                    it.call(fn, [Ptr(Obj('scope', 'heap'), ())]); out[(ln, rn)] = 'ok'
+                except Terminal as t:
+                    out[(ln, rn)] = 'error' if t.what == 'error' else 'terminal:' + t.what
+        return out, {n: {k: v for k, v in d.items() if k != 'type'} for n, _, d in ops}
+    runs = explore(prog, runner, {}, max_runs=2)
+    if len(runs) != 1 or runs[0].outcome != 'return':
+        raise AnalysisBroken('assignexpr: %s' % [(x.outcome, x.detail) for x in runs])
+    out, descs = runs[0].value
+    PT = {'int': ('int', 0), 'char': ('char', 0), 'void': ('void', 0), 'cint': ('int', 1), 'func': ('func', 0), 'incomplete': ('inc', 0)}
+    for (ln, rn), got in out.items():
+        L, R = descs[ln], descs[rn]
+        la, ra = L['k'] == 'arith', R['k'] == 'arith'
+        if la and L['t'] == 'bool': ok = ra or R['k'] == 'ptr'
+        elif la: ok = ra
+        elif L['k'] == 'ptr':
+            if R.get('null'): ok = True
+            elif R['k'] != 'ptr': ok = False
+            else:
+                lp, rp = PT[L['pointee']], PT[R['pointee']]
+                if 'func' in (lp[0], rp[0]) and lp[0] != rp[0]:
+                    continue      # function pointer <-> void *: constraint violation tolerated as a common extension, not judged
+                ok = (lp[0] == rp[0] or 'void' in (lp[0], rp[0])) and (rp[1] & ~lp[1]) == 0
+        elif L['k'] in ('struct', 'struct2'): ok = R['k'] == L['k']
+        else: continue
+        r.instance((got == 'ok') == ok, 'assign:%s=%s' % (ln, rn), 'expr.c:%s' % fn.get('line'), 'C11 6.5.16.1: %s; cproc: %s' % ('valid' if ok else 'constraint violation, must be diagnosed', got))
+    r.exhaustive = True
+
+
 def run(chk, tier):
     from props import c01f
     prog = facts.programs()['cproc-qbe']
@@ -473,5 +539,6 @@ def run(chk, tier):
     chk.guard('C12.c', lambda: c12.rule_directives(chk, prog, tier))   # unimplemented directives and ## are diagnosed
     chk.guard('C10.h', lambda: rule_staticassert(chk, prog, tier))
     chk.guard('C10.i', lambda: rule_casts(chk, prog, tier))
+    chk.guard('C10.j', lambda: rule_assign_constraints(chk, prog, tier))
     from props import c09
     chk.guard('C09.f', lambda: c09.rule_redecl_types(chk, prog, tier))
